@@ -219,6 +219,12 @@ func (s *SFTPStore) Prune(ctx context.Context, ids map[ChunkID]struct{}) error {
 	defer func() { s.pool <- c }()
 	walker := c.client.Walk(c.path)
 
+	// Only look at chunks in the format this store is using, not compressed
+	// chunks if this is running in uncompressed mode and vice-versa
+	ext := CompressedChunkExt
+	if c.opt.Uncompressed {
+		ext = UncompressedChunkExt
+	}
 	for walker.Step() {
 		// See if we're meant to stop
 		select {
@@ -234,22 +240,15 @@ func (s *SFTPStore) Prune(ctx context.Context, ids map[ChunkID]struct{}) error {
 			continue
 		}
 		path := walker.Path()
-		if !strings.HasSuffix(path, CompressedChunkExt) { // Skip files without chunk extension
+		// If the chunk is only partially uploaded remove it
+		if isSFTPTempName(filepath.Base(path), ext) {
+			_ = c.client.Remove(path)
 			continue
 		}
-		// Skip compressed chunks if this is running in uncompressed mode and vice-versa
-		var sID string
-		if c.opt.Uncompressed {
-			if !strings.HasSuffix(path, UncompressedChunkExt) {
-				return nil
-			}
-			sID = strings.TrimSuffix(filepath.Base(path), UncompressedChunkExt)
-		} else {
-			if !strings.HasSuffix(path, CompressedChunkExt) {
-				return nil
-			}
-			sID = strings.TrimSuffix(filepath.Base(path), CompressedChunkExt)
+		if !strings.HasSuffix(path, ext) {
+			continue
 		}
+		sID := strings.TrimSuffix(filepath.Base(path), ext)
 		// Convert the name into a checksum, if that fails we're probably not looking
 		// at a chunk file and should skip it.
 		id, err := ChunkIDFromString(sID)
@@ -257,14 +256,29 @@ func (s *SFTPStore) Prune(ctx context.Context, ids map[ChunkID]struct{}) error {
 			continue
 		}
 		// See if the chunk we're looking at is in the list we want to keep, if not
-		// remove it.
+		// remove it. Use the connection held for the walk: taking another one from
+		// the pool blocks forever if this is the only one.
 		if _, ok := ids[id]; !ok {
-			if err = s.RemoveChunk(id); err != nil {
+			if err = c.client.Remove(c.nameFromID(id)); err != nil {
 				return err
 			}
 		}
 	}
 	return nil
+}
+
+// isSFTPTempName returns true for the names StoreObject gives to its temporary
+// files: the name of a chunk file of this store followed by a decimal number.
+func isSFTPTempName(name, ext string) bool {
+	idLen := 2 * len(ChunkID{})
+	if len(name) <= idLen+len(ext) || name[idLen:idLen+len(ext)] != ext {
+		return false
+	}
+	if strings.Trim(name[idLen+len(ext):], "0123456789") != "" {
+		return false
+	}
+	_, err := ChunkIDFromString(name[:idLen])
+	return err == nil
 }
 
 // Close terminates all client connections
